@@ -6,6 +6,14 @@ import sys
 import traceback
 
 sys.path.insert(0, os.path.dirname(os.path.abspath(__file__)))
+
+# Every check runs in a process whose local time zone is NOT UTC (and has a fractional offset): the library promises that
+# naive datetimes are read as UTC, and "naive = local time" slips (astimezone(), timestamp(), fromtimestamp() …) are
+# invisible on a UTC host (seeded changes C05-n1, C06-n3).
+os.environ['TZ'] = 'VRF-05:30'
+import time as _time  # noqa: E402
+_time.tzset()
+
 import common  # noqa: E402
 
 
